@@ -55,6 +55,8 @@ var histShapes = []hshape{
 	{Name: "task-dependency", Tasks: []htask{{Name: "A", Lits: []string{"a.txt"}, NCmd: 1}, {Name: "B", Lits: []string{"b.txt"}, Deps: []string{"A"}, NCmd: 1}}, Files: []string{"a.txt", "b.txt"}},
 	{Name: "recursive-glob", Tasks: []htask{{Name: "A", Globs: []string{"**/*.txt"}, NCmd: 1}, {Name: "N", NCmd: 1}}, Files: []string{"a.txt", "sub/s.txt", "sub/.h.txt"}},
 	{Name: "literal-plus-glob", Tasks: []htask{{Name: "A", Lits: []string{"a.txt"}, Globs: []string{"sub/*.txt"}, NCmd: 1}, {Name: "B", Globs: []string{"*.txt"}, NCmd: 1}}, Files: []string{"a.txt", "sub/s.txt"}},
+	{Name: "same-glob-different-literals", Tasks: []htask{{Name: "A", Globs: []string{"*.txt"}, NCmd: 1}, {Name: "B", Lits: []string{"c.cfg"}, Globs: []string{"*.txt"}, NCmd: 1}}, Files: []string{"a.txt", "c.cfg"}},
+	{Name: "file-named-twice", Tasks: []htask{{Name: "A", Lits: []string{"a.txt"}, Globs: []string{"*.txt"}, NCmd: 1}, {Name: "B", Globs: []string{"*.txt", "**/*.txt"}, NCmd: 1}}, Files: []string{"a.txt", "b.txt"}},
 	{Name: "chain-of-three", Tasks: []htask{{Name: "A", Lits: []string{"a.txt"}, NCmd: 1}, {Name: "B", Lits: []string{"b.txt"}, Deps: []string{"A"}, NCmd: 1}, {Name: "C", Deps: []string{"B"}, NCmd: 1}}, Files: []string{"a.txt", "b.txt"}},
 }
 
@@ -113,11 +115,12 @@ type hstate struct {
 	Model    map[string]string `json:"model"`            // task -> snapshot of its last success ("" / missing = none)
 	LastFail map[string]string `json:"last_fail"`        // task -> set when it failed on the inputs of its last success (since that success)
 	Forced   map[string]string `json:"forced,omitempty"` // task -> set once it took part in a forced run (since the cache was last removed)
-	Other    string            `json:"other,omitempty"`  // anything else found in the project (should never appear)
+	Extra    map[string]string `json:"extra,omitempty"`  // any other file found in the project (e.g. further files in .spok): carried along
+	Other    string            `json:"other,omitempty"`  // the spokfile changed / not a regular file: never expected
 }
 
 func newState() hstate {
-	return hstate{Files: map[string]string{}, Model: map[string]string{}, LastFail: map[string]string{}, Forced: map[string]string{}}
+	return hstate{Files: map[string]string{}, Model: map[string]string{}, LastFail: map[string]string{}, Forced: map[string]string{}, Extra: map[string]string{}}
 }
 
 func (s hstate) clone() hstate {
@@ -133,6 +136,9 @@ func (s hstate) clone() hstate {
 	}
 	for k, v := range s.Forced {
 		n.Forced[k] = v
+	}
+	for k, v := range s.Extra {
+		n.Extra[k] = v
 	}
 	if s.Cache != nil {
 		c := *s.Cache
@@ -168,7 +174,7 @@ func (s hstate) key() string {
 	if s.Cache != nil {
 		c = *s.Cache
 	}
-	return "F{" + mapKey(s.Files) + "}C{" + c + "}M{" + mapKey(dropEmpty(s.Model)) + "}L{" + mapKey(dropEmpty(s.LastFail)) + "}X{" + mapKey(dropEmpty(s.Forced)) + "}O{" + s.Other + "}"
+	return "F{" + mapKey(s.Files) + "}C{" + c + "}M{" + mapKey(dropEmpty(s.Model)) + "}L{" + mapKey(dropEmpty(s.LastFail)) + "}X{" + mapKey(dropEmpty(s.Forced)) + "}E{" + mapKey(s.Extra) + "}O{" + s.Other + "}"
 }
 
 // diskKey identifies what is on disk only (for counting distinct disk states).
@@ -177,7 +183,7 @@ func (s hstate) diskKey() string {
 	if s.Cache != nil {
 		c = *s.Cache
 	}
-	return "F{" + mapKey(s.Files) + "}C{" + c + "}"
+	return "F{" + mapKey(s.Files) + "}C{" + c + "}E{" + mapKey(s.Extra) + "}"
 }
 
 type hop struct {
@@ -221,6 +227,15 @@ func (sb *sandbox) materialise(s hshape, st hstate) {
 		_ = os.MkdirAll(filepath.Dir(full), 0o755)
 		_ = os.WriteFile(full, []byte(c), 0o644)
 	}
+	for p, c := range st.Extra {
+		full := filepath.Join(sb.Proj, p)
+		if strings.HasSuffix(p, "/") {
+			_ = os.MkdirAll(full, 0o755)
+			continue
+		}
+		_ = os.MkdirAll(filepath.Dir(full), 0o755)
+		_ = os.WriteFile(full, []byte(c), 0o644)
+	}
 	if st.Cache != nil {
 		d := filepath.Join(sb.Proj, ".spok")
 		_ = os.MkdirAll(d, 0o755)
@@ -233,6 +248,7 @@ func (sb *sandbox) materialise(s hshape, st hstate) {
 // readBack reads files and cache from the project directory into st.
 func (sb *sandbox) readBack(s hshape, st *hstate) {
 	st.Files = map[string]string{}
+	st.Extra = map[string]string{}
 	st.Cache = nil
 	st.Other = ""
 	known := map[string]bool{}
@@ -259,15 +275,18 @@ func (sb *sandbox) readBack(s hshape, st *hstate) {
 		case info.Mode().IsRegular() && known[rel]:
 			b, _ := os.ReadFile(p)
 			st.Files[rel] = string(b)
-		default:
+		case info.Mode().IsRegular():
+			// anything else spok (or a variant of it) leaves in the project is part of the state
 			b, _ := os.ReadFile(p)
-			other = append(other, rel+":"+core.ShaHex(b)[:8])
+			st.Extra[rel] = string(b)
+		default:
+			other = append(other, rel+":not-a-regular-file")
 		}
 		return nil
 	})
 	if st.Cache == nil {
 		if _, err := os.Stat(filepath.Join(sb.Proj, ".spok")); err == nil {
-			other = append(other, ".spok-without-cache.json")
+			st.Extra[".spok/"] = "" // the directory exists without a cache file (a killed initialisation)
 		}
 	}
 	sort.Strings(other)
@@ -598,6 +617,11 @@ func applyEdit(st *hstate, op hop) {
 		delete(st.Files, op.File)
 	case "rmcache":
 		st.Cache = nil
+		for k := range st.Extra {
+			if strings.HasPrefix(k, ".spok/") {
+				delete(st.Extra, k)
+			}
+		}
 		st.Model = map[string]string{}
 		st.LastFail = map[string]string{}
 		st.Forced = map[string]string{}
